@@ -65,5 +65,7 @@ run_one() {
   echo "   failing theorems: ${failed:-none}"
 }
 
-ALL="baseline 036cc7d 036cc7d-R c63f907 c63f907-R 86e2d95 86e2d95-R dd6bb0c dd6bb0c-R d2bdde6 d2bdde6-R 2cc0c75 d2bdde6+2cc0c75-R C10-m1 C13-m1 C13-m2 C02-m2 C07-m2 C17-m1"
+# the error-path repairs of round 4 (3b4867f table writer Open cleanup, a9ebc7d WAL writer, a7ed007 flag writer, bfb8835 compaction
+# inputs, edfc7e7 DB.Open, 6dd9211 done signal of the goroutines): each reversed on today's files
+ALL="baseline 036cc7d 036cc7d-R c63f907 c63f907-R 86e2d95 86e2d95-R dd6bb0c dd6bb0c-R d2bdde6 d2bdde6-R 2cc0c75 d2bdde6+2cc0c75-R 3b4867f-R a9ebc7d-R a7ed007-R bfb8835-R edfc7e7-R 6dd9211-R C10-m1 C13-m1 C13-m2 C02-m2 C07-m2 C17-m1"
 for m in ${@:-$ALL}; do run_one $m; done
